@@ -289,6 +289,86 @@ func freshRoot(v ssa.Value, seen map[ssa.Value]bool) bool {
 	return false
 }
 
+// privateSliceCell: the local slice variable held in cell a only ever holds slices whose backing
+// array this invocation allocated (freshRoot), and neither the variable nor its elements' addresses
+// are handed to anything that could keep or write them: no callee can touch the elements.
+func privateSliceCell(a *ssa.Alloc) bool {
+	if a.Heap || a.Referrers() == nil {
+		return false
+	}
+	if _, ok := deref(a.Type()).Underlying().(*types.Slice); !ok {
+		return false
+	}
+	stores := 0
+	for _, r := range *a.Referrers() {
+		switch u := r.(type) {
+		case *ssa.Store:
+			if u.Addr != ssa.Value(a) || !freshRoot(u.Val, map[ssa.Value]bool{}) {
+				return false
+			}
+			stores++
+		case *ssa.UnOp:
+			if u.Op != token.MUL || u.Referrers() == nil {
+				return false
+			}
+			for _, use := range *u.Referrers() {
+				switch w := use.(type) {
+				case *ssa.DebugRef, *ssa.Range:
+				case *ssa.Store:
+					if w.Val == ssa.Value(u) && w.Addr != ssa.Value(a) {
+						return false
+					}
+				case *ssa.IndexAddr:
+					if w.Referrers() == nil {
+						return false
+					}
+					for _, e := range *w.Referrers() {
+						switch ee := e.(type) {
+						case *ssa.UnOp:
+							if ee.Op != token.MUL {
+								return false
+							}
+						case *ssa.Store:
+							if ee.Addr != ssa.Value(w) {
+								return false
+							}
+						case *ssa.DebugRef:
+						default:
+							return false
+						}
+					}
+				case *ssa.Call:
+					if b, ok := w.Call.Value.(*ssa.Builtin); ok {
+						switch b.Name() {
+						case "len", "cap":
+						case "append":
+							if len(w.Call.Args) == 0 || w.Call.Args[0] != ssa.Value(u) {
+								return false
+							}
+							for _, other := range w.Call.Args[1:] {
+								if other == ssa.Value(u) {
+									return false
+								}
+							}
+						default:
+							return false
+						}
+					} else if f := w.Call.StaticCallee(); f != nil && pureExtern(f.String()) {
+					} else {
+						return false
+					}
+				default:
+					return false
+				}
+			}
+		case *ssa.DebugRef:
+		default:
+			return false
+		}
+	}
+	return stores > 0
+}
+
 // rootAlloc follows FieldAddr/IndexAddr chains down to a local Alloc, if any.
 func rootAlloc(v ssa.Value) *ssa.Alloc {
 	for {
